@@ -223,6 +223,17 @@ func (sw *SlidingWindow) Add(data any) {
 			close(sw.initChan)
 		}
 		sw.initialized = true
+	} else if timeChar == types.EventTime && sw.currentSlot != nil && eventTime.Before(*sw.currentSlot.Start) &&
+		(sw.watermark == nil || !sw.watermark.IsEventTimeLate(eventTime)) {
+		// An on-time event older than the current window: the current window was
+		// anchored at the first arrival, not at the earliest event, so the windows
+		// covering this event from its own slide-aligned start would never fire.
+		// Re-anchor. A window containing an on-time event ends after the watermark,
+		// so it has not fired yet and nothing is replayed; with slide > size the
+		// event may fall in a gap between windows, then there is nothing to do.
+		if slot := sw.createSlotFromStart(alignWindowStart(eventTime, sw.slide)); slot.Contains(eventTime) {
+			sw.currentSlot = slot
+		}
 	}
 	row := types.Row{
 		Data:      data,
